@@ -15,7 +15,7 @@ from hypothesis import strategies as st
 from vf.runner import HERE, REPO, Ctx, HarnessError, Partial, Violation, digest, hyp_search, shard_map
 
 RULE = ("inputs = every repository fixture + generated documents of every format (token documents with many styles/links/lists, typed spreadsheets, image-bearing documents). "
-        "(a) each input is extracted twice in one process and once in fresh interpreters started with PYTHONHASHSEED in {0, 1, 2, a seed derived from VERIF_SEED}: the sha256 of "
+        "(a) each input is extracted twice in one process and once in fresh interpreters started with PYTHONHASHSEED in {0, 1, 2, a seed derived from VERIF_SEED}, each going through the inputs in a different order (forward, reversed, rotated): the sha256 of "
         "json.dumps(to_json(), sort_keys=True) must agree everywhere, and the caller's buffer must be byte-identical afterwards. (b) observer histories: Hypothesis-drawn sequences of "
         "full_text / units (text, images, tables, metadata) / images (partial and full reads of get_bytes) / tables / metadata / to_json / serialize(no binary) / json.dumps calls on one "
         "result; after every step each observer must return what its first call returned and to_json() must equal the initial snapshot. Non-trivial = result with >=2 collections of "
@@ -147,6 +147,12 @@ def generated_inputs(ctx: Ctx, per_format: int):
     for fmt in c14.FORMATS_IMG:
         ext = PROFILES[fmt]["ext"] if fmt in PROFILES else fmt
         collect("img-" + fmt, c14.cases(fmt), lambda c: c14.build(c)[0], ext, max(2, per_format // 2))
+    # pairs that differ in an optional part (comments), richer one first: the in-process digest of the second must still equal its
+    # fresh-interpreter digest (nothing of the first may stick to a class or module)
+    from vf.props.c15 import _gen_office
+    pairs = _gen_office()
+    for name in ("gen/comments.pptx", "gen/plain.pptx", "gen/comments.docx", "gen/plain.docx", "gen/plain.odp", "gen/plain.odt"):
+        out.append({"name": "pair:" + name, "ext": name.rsplit(".", 1)[-1], "data": pairs[name]})
     return out
 
 
@@ -163,9 +169,9 @@ def process_leg(ctx: Ctx, part: Partial, inputs):
         mpath = os.path.join(td, "manifest.json")
         json.dump(man, open(mpath, "w"))
         procs = []
-        for hs in hashseeds:
+        for hs, order in zip(hashseeds, ["fwd", "rev", "rot", "fwd"]):
             env = dict(os.environ, PYTHONHASHSEED=hs, PYTHONDONTWRITEBYTECODE="1")
-            procs.append((hs, subprocess.Popen([sys.executable, "-B", "-m", "vf.digest_worker", mpath], cwd=HERE, env=env, stdout=subprocess.PIPE, stderr=subprocess.PIPE)))
+            procs.append((hs, subprocess.Popen([sys.executable, "-B", "-m", "vf.digest_worker", mpath, order], cwd=HERE, env=env, stdout=subprocess.PIPE, stderr=subprocess.PIPE)))
         # in-process: twice, with buffer check
         local = {}
         for it in inputs:
